@@ -7,9 +7,9 @@ H("c07_hist_agg", "C07", "seq", ["harness/c07_histogram.cc"], sdk=_C07_SDK, cxxf
        "each part's point, the merge of the parts in three association orders and the single histogram of all values against a by-definition reference",
   design_ref="5/C07")
 H("c07_hist_meter", "C07", "seq", ["harness/c07_histogram.cc"], sdk=_C07_SDK, cxxflags=["-fno-access-control"],
-  args={"quick": ["--seam=meter", "--n=3", "--alphabet=core", "--viewn=2"], "thorough": ["--seam=meter", "--n=4", "--alphabet=core", "--viewn=4"]},
+  args={"quick": ["--seam=meter", "--n=3", "--alphabet=core", "--viewn=2"], "thorough": ["--seam=meter", "--n=4", "--alphabet=core", "--viewn=3"]},
   what="real MeterProvider + View in the forms View(kHistogram, config) with record_min_max on/off, View(kDefault, config), View(kHistogram, nullptr) or no view, "
-       "UInt64/Double histogram instruments, 1-2 harness pull readers (delta/cumulative): every multiset of <= n values (<= viewn for the two added View forms) split in "
+       "UInt64/Double histogram instruments, 1-2 harness pull readers (delta/cumulative): every multiset of <= n values (<= viewn for the two added View forms: 2 quick, 3 thorough) split in "
        "every way over three collection cycles, every schedule of which reader collects after which cycle; "
        "each collected point against the reference histogram of the values that reader is due",
   design_ref="5/C07")
